@@ -13,6 +13,10 @@ import (
 
 const maxAlloc = 1 << 22 // elements; larger concrete allocations are not executed
 
+const goMaxAlloc = 1 << 47 // Go's makeslice limit on 64-bit platforms (len*elemsize beyond it panics)
+
+const maxCallDepth = 12000 // interpreted frames; deeper recursion ends the path (limit)
+
 func (i *interpreter) classifyPanic(rp any) any {
 	switch r := rp.(type) {
 	case targetPanic:
@@ -251,8 +255,16 @@ func (fr *frame) symMake(instr *ssa.MakeSlice, elem types.Type, capV, lenV value
 			if elemSize < 1 {
 				elemSize = 1
 			}
+			// Go's makeslice panics (recoverably) when len*elemsize exceeds the address space limit
+			goMax := int64(goMaxAlloc) / elemSize
+			tooBig := xp.mk("(bvsgt "+s.e+" "+bvLit(uint64(goMax), w)+")", sBool)
+			if xp.decide(tooBig, "make-beyond-go-maxalloc") {
+				panic(runtimeErr("runtime error: makeslice: " + what + " out of range"))
+			}
 			lim := xp.allocLimit / elemSize
 			ok := xp.mk("(bvsle "+s.e+" "+bvLit(uint64(lim), w)+")", sBool)
+			// prefer a counterexample of 1..4 GiB: far beyond the bound, and allocatable when replayed natively
+			xp.prefNeg = "(and (bvsge " + s.e + " " + bvLit(uint64((1<<30)/elemSize), w) + ") (bvsle " + s.e + " " + bvLit(uint64((1<<32)/elemSize), w) + "))"
 			xp.assert("alloc-bounded:"+shortSite(site), ok)
 			xp.allocSites[shortSite(site)]++
 		} else {
@@ -269,7 +281,9 @@ func (fr *frame) symMake(instr *ssa.MakeSlice, elem types.Type, capV, lenV value
 				return signExtend(uint64(c), s.s)
 			}
 		}
-		u := xp.concretize(s, "make@"+shortSite(site))
+		// beyond the harness's representative sizes: two solver-chosen ones (explicit concretisation, DESIGN §8 C20;
+		// the size assertion above is what covers all values)
+		u := xp.concretizeN(s, "make@"+shortSite(site), 2, true)
 		return signExtend(u, s.s)
 	}
 	lenV = one(lenV, "len")
@@ -309,7 +323,7 @@ func shortSite(s string) string {
 }
 
 func (x *Explorer) bigAlloc(instr ssa.Instruction, n int64) {
-	panic(pathEnd{kind: endOutside, msg: fmt.Sprintf("concrete allocation of %d elements is not executed", n)})
+	panic(pathEnd{kind: endOutside, msg: "a concrete allocation beyond the executor's limit is not executed"})
 }
 
 func buildOnDemand(i *interpreter, fn *ssa.Function) *ssa.Function {
